@@ -497,6 +497,11 @@ func cmdCancelLeak(args []string) error {
 			c.Storage.Cleanup.Interval = 5 * time.Millisecond
 			c.Storage.Cleanup.MustKeepInterval = time.Millisecond
 			c.Storage.Cleanup.RemoveOldInstancesInterval = time.Hour
+			if round%2 == 1 {
+				// every instance counts as stale at once: the cleaner consults what the sync loop has committed
+				// (GetCommitted) while the loop is merging and uploading
+				c.Storage.Cleanup.RemoveOldInstancesInterval = time.Millisecond
+			}
 			c.Sweeper.Enabled = true
 			c.Sweeper.RetentionDays = 1
 			c.Sweeper.Interval = 5 * time.Millisecond
